@@ -64,6 +64,7 @@ func (f *MM) reset() {
 }
 
 func (f *MM) setInt(d int, v *big.Int) {
+	mustBeBelow(v, bigP, "FSetInt")
 	*limbsOf(f.F[d]) = montLimbs(v, bigP)
 	f.emitF("FSetInt", kv{"d", d + 1}, kv{"v", be32(v)})
 }
@@ -96,6 +97,29 @@ func genC11(m *M, budget int) {
 	negInvZ.Neg(negInvZ).Mod(negInvZ, bigP)
 	exc := new(big.Int).ModSqrt(negInvZ, bigP)
 	i := 0
+	// the carry-coverage corpus: u whose stored form is an operand solved for a site of field.Square / Mul (u^2 first)
+	nc := 0
+	for _, e := range loadCorpus("field") {
+		if e.Func != "Square" && e.Func != "Mul" {
+			continue
+		}
+		for _, a := range e.arrays() {
+			if a.Cmp(bigP) >= 0 {
+				continue
+			}
+			if nc%20 == 0 {
+				f.reset()
+			}
+			nc++
+			f.class("corpus:carry_sites")
+			f.setInt(0, mulmod(a, rInvP, bigP))
+			q := secp256k1.SSWU(f.F[0])
+			x, y := readAffine(q)
+			f.emitF("MSswu", kv{"a", 1}, kv{"x", x}, kv{"y", y})
+			f.emitF("MIso", kv{"x", x}, kv{"y", y}, kv{"res", f.resultObs(secp256k1.IsogenySecp256k13iso(q))})
+		}
+	}
+	budget += f.events
 	for f.events < budget {
 		f.reset()
 		for j := 0; j < 10; j++ {
